@@ -192,7 +192,7 @@ fn aux_alphabet() -> Vec<Letter> {
 
 pub fn run(ctx: &Ctx) -> i32 {
     let shared = Shared::new("C06", ctx);
-    let depth = if ctx.quick() { 5 } else { 6 };
+    let depth = if ctx.quick() { 6 } else { 9 };
     explore(ctx, &format!("AUX wide depth<={depth}"), Wide { alphabet: aux_alphabet(), bases: alpha::bases(false), max_add: depth, repeat: false }, C06, shared.clone());
     let seeded: Vec<Letter> = vec![
         Letter::one(a(Some(7), &vec![100; 12])),
